@@ -160,6 +160,10 @@ def box_around_point(p, dist):
     else:
         dlon = asin(sin(d) / cos(latr))
         lon_l, lon_r = lonr - dlon, lonr + dlon
+        if lon_l < -math.pi or lon_r > math.pi:
+            # The box crosses the antimeridian. Longitudes are compared without wrapping
+            # around, thus use all longitudes (the exact distance is checked afterwards).
+            lon_l, lon_r = -math.pi, math.pi
     lat_t, lon_r = degrees(lat_t), degrees(lon_r)
     lat_b, lon_l = degrees(lat_b), degrees(lon_l)
     return lat_b, lon_l, lat_t, lon_r
